@@ -1109,6 +1109,20 @@ package tengo
 //@                   && (c.globals[c.globalIndexes[vars[i].name]] != nil ==> vars[i].value == c.globals[c.globalIndexes[vars[i].name]])
 //@                   && (c.globals[c.globalIndexes[vars[i].name]] == nil ==> vars[i].value == UndefinedValue)
 
+// Clone: the clone gets global slots of its own; a slot that holds a mutable value holds a fresh copy, an
+// unset slot stays unset, names are bound to the same indexes, and the original is not written
+//@ func (*Compiled).Clone
+//@   props C15 C08
+//@   assigns nothing
+//@   ensures own_slots{C15,C08}: result != nil && fresh(result) && fresh(result.globals) && len(result.globals) == len(c.globals)
+//@   ensures same_names{C15}: result.globalIndexes == c.globalIndexes && result.bytecode == c.bytecode && result.maxAllocs == c.maxAllocs
+//@   ensures isolated{C15,C08}: forall i in 0..len(c.globals) :: (c.globals[i] == nil ==> result.globals[i] == nil)
+//@                   && (c.globals[i] != nil && mutablekind(c.globals[i]) ==> fresh(result.globals[i]))
+//@   loop 0 invariant slots: fresh(clone) && fresh(clone.globals) && len(clone.globals) == len(c.globals)
+//@   loop 0 invariant done{C15,C08}: forall i in 0..rangeindex+1 :: (c.globals[i] == nil ==> clone.globals[i] == nil)
+//@                   && (c.globals[i] != nil && mutablekind(c.globals[i]) ==> fresh(clone.globals[i]))
+//@   loop 0 invariant rest: forall i in rangeindex+1..len(c.globals) :: clone.globals[i] == nil
+
 //@ func (*Compiled).IsDefined
 //@   props C15
 //@   requires indexes: forall k string :: haskey(c.globalIndexes, k) ==> 0 <= c.globalIndexes[k] && c.globalIndexes[k] < len(c.globals)
